@@ -313,7 +313,8 @@ def main():
             if not conf:
                 ent['native_stderr'] = nat['stderr'][-400:]; unconfirmed.append(ent); continue
             kf = match_known(known, h.name, v)
-            if kf: ent['finding'] = kf['what']; knownhits.append(ent)
+            if v.get('known'): ent['finding'] = v['known']; knownhits.append(ent)
+            elif kf and not kf.get('when_z3'): ent['finding'] = kf['what']; knownhits.append(ent)
             else: violations.append(ent)
     # ---- 4. verdict
     for r, h in zip(results, allh):
